@@ -23,6 +23,7 @@ type Variant struct {
 	BudgetS  int    `json:"budget_s"` // wall-clock cap per shard (0: tier default)
 	Shards   int    `json:"shards"`   // how many processes to split this variant over (0: 1)
 	Iterate  bool   `json:"iterate"`  // iterate the bound 0..Bound
+	Delay    bool   `json:"delay"`    // delay bounding: non-default picks at blocking points cost one deviation too
 }
 
 // Harness is a registered check body.
@@ -266,8 +267,10 @@ func Main(args []string) int {
 				Panic    string    `json:"panic,omitempty"`
 				Deadlock string    `json:"deadlock,omitempty"`
 				Steps    int       `json:"steps"`
+				Threads  []string  `json:"threads"`
+				Choices  int       `json:"choices"`
 			}
-			r := rep{Log: x.Log, Fails: x.Fails, Panic: x.Panic, Deadlock: x.Deadlock, Steps: x.Steps}
+			r := rep{Log: x.Log, Fails: x.Fails, Panic: x.Panic, Deadlock: x.Deadlock, Steps: x.Steps, Threads: x.Threads, Choices: len(x.Choices)}
 			if err != nil {
 				r.Err = err.Error()
 			}
@@ -296,6 +299,9 @@ func Main(args []string) int {
 			res = runEnum(h, *v, *tier, k, w, time.Duration(b)*time.Second)
 		} else {
 			o := Options{Bound: v.Bound, ShardK: k, ShardW: w, MaxExec: *maxExec, NoCache: v.NoCache, MaxSteps: v.MaxSteps, Iterate: v.Iterate, KeepGoing: true}
+			if v.Delay {
+				o.FreeCost = 1
+			}
 			if b > 0 {
 				o.Deadline = time.Now().Add(time.Duration(b) * time.Second)
 			}
